@@ -3,6 +3,8 @@
 # suite on it, run the property's check against the copy, print one JSON line, delete the copy.
 set -u
 export GOFLAGS=-mod=mod GOPROXY=off GOSUMDB=off GOTOOLCHAIN=local
+# every scratch copy lives under a new path, so each run adds a few hundred MB to the Go build cache: trim it when the disk runs low
+if [ "$(df --output=avail -k / | tail -1)" -lt 40000000 ]; then go clean -cache; fi
 PATCH="$(readlink -f "$1")"; TIER="${2:-quick}"
 NAME="$(basename "$PATCH" .patch)"
 PROP="$(head -1 "$PATCH" | sed -n 's/^# property: //p')"
